@@ -1,9 +1,162 @@
-(* C06 — proofs (work in progress) *)
-From Coq Require Import List ZArith Bool Lia.
-From OV Require Import C06.Types C06.Model.
+(* C06 — the theorems about the interpreted code, for every configuration that passes [cfg_ok]
+   (in particular the one translated from the source, see [gen_cfg_ok]). *)
+From Coq Require Import List ZArith Bool Lia Reals Lra.
+From Flocq Require Import Core IEEE754.BinarySingleNaN.
+From OV Require Import C06.Model C06.Spec C06.IntFacts C06.FloatFacts.
 Import ListNotations.
 Open Scope Z_scope.
 
-Lemma legacy_convert_wraps :
-  run_with Legacy.cfg (mk_case Convert TUInt32 TInt32 0 0 [4000000000]) = [6; -294967296].
+(* ---- the translated tables pass the check ------------------------------------------------------ *)
+
+Lemma gen_cfg_ok : cfg_ok gen_cfg = true.
 Proof. vm_compute. reflexivity. Qed.
+
+(* key lemma of the repaired cast: for every integer type and both float formats, `MIN as f` is MIN
+   and `(MAX as f) + 1.0` is MAX + 1 = 2^k, exactly *)
+Lemma range_bounds_exact :
+  forallb (fun sb => bounds_exact 24 128 true (fst sb) (snd sb) && bounds_exact 53 1024 true (fst sb) (snd sb))
+          int_types = true.
+Proof. vm_compute. reflexivity. Qed.
+
+Lemma range_bounds_real : forall s b, In (s, b) int_types ->
+  (B2R (f_of_Z 24 128 (pmin s b)) = IZR (pmin s b) /\
+   B2R (f_upper 24 128 true (pmax s b)) = IZR (2 ^ (if s then b - 1 else b)) /\
+   B2R (f_of_Z 53 1024 (pmin s b)) = IZR (pmin s b) /\
+   B2R (f_upper 53 1024 true (pmax s b)) = IZR (2 ^ (if s then b - 1 else b)))%R.
+Proof.
+  intros s b Hin.
+  pose proof (proj1 (forallb_forall _ _) range_bounds_exact (s, b) Hin) as H.
+  cbn [fst snd] in H. apply andb_true_iff in H as [H32 H64].
+  apply bounds_exact_spec in H32 as [A1 A2]. apply bounds_exact_spec in H64 as [B1 B2].
+  apply exact_Z_correct in A1 as [A1 _]. apply exact_Z_correct in A2 as [A2 _].
+  apply exact_Z_correct in B1 as [B1 _]. apply exact_Z_correct in B2 as [B2 _].
+  assert (E : pmax s b + 1 = 2 ^ (if s then b - 1 else b)) by (unfold pmax; destruct s; lia).
+  rewrite <- E. repeat split; assumption.
+Qed.
+
+(* ---- plumbing ------------------------------------------------------------------------------------ *)
+
+Lemma num_of_In : forall t k, num_of t = Some k -> In t numeric_types.
+Proof. intros t k H. destruct t; cbn in H; try discriminate; cbn; tauto. Qed.
+
+Lemma num_of_prim : forall t k, num_of t = Some k ->
+  prim_of t = Some (match k with NInt s b => PInt s b | NF32 => PF32 | NF64 => PF64 end).
+Proof. intros t k H. destruct t; cbn in H; try discriminate; injection H as <-; reflexivity. Qed.
+
+Lemma num_of_int_bits : forall t s b, num_of t = Some (NInt s b) -> 0 < b <= 64.
+Proof. intros t s b H. destruct t; cbn in H; try discriminate; injection H as <- <-; lia. Qed.
+
+Record cfg_params (cfg : config) : Prop := {
+  p_neg : c_int_neg cfg = OLt; p_lo : c_int_lo cfg = OGe; p_hi : c_int_hi cfg = OLe;
+  p_flo : c_fl_lo cfg = OGe; p_fhi : c_fl_hi cfg = OLt; p_plus : c_fl_plus cfg = true }.
+
+Lemma ord_eqb_eq : forall a b, ord_eqb a b = true -> a = b.
+Proof. intros [] []; cbn; congruence. Qed.
+
+Lemma cfg_ok_params : forall cfg, cfg_ok cfg = true -> cfg_params cfg.
+Proof.
+  intros cfg H. unfold cfg_ok in H. repeat (apply andb_true_iff in H as [H ?]).
+  constructor; try (apply ord_eqb_eq; assumption); assumption.
+Qed.
+
+Lemma cfg_ok_pair : forall cfg s t ks kt, cfg_ok cfg = true ->
+  num_of s = Some ks -> num_of t = Some kt -> s <> t -> pair_ok cfg s t = true.
+Proof.
+  intros cfg s t ks kt H Hs Ht Hne. unfold cfg_ok in H. apply andb_true_iff in H as [_ H].
+  pose proof (proj1 (forallb_forall _ _) H s (num_of_In _ _ Hs)) as H1. cbv beta in H1.
+  pose proof (proj1 (forallb_forall _ _) H1 t (num_of_In _ _ Ht)) as H2. cbv beta in H2.
+  apply orb_true_iff in H2 as [H2|H2]; [|exact H2]. apply ty_eqb_eq in H2. contradiction.
+Qed.
+
+Lemma ty_eqb_neq : forall a b, a <> b -> ty_eqb a b = false.
+Proof. intros a b H. destruct (ty_eqb a b) eqn:E; [|reflexivity]. apply ty_eqb_eq in E. contradiction. Qed.
+
+(* ---- explicit cast to an integer type ----------------------------------------------------------- *)
+
+(* the rounded source value *)
+Definition rounded (v : val) : Z := ZnearestA (valR v).
+
+Definition cast_int_spec (ts : bool) (tb : Z) (tgt : ty) (v : val) : res :=
+  if finite_val v && in_range ts tb (rounded v) then Res tgt (VInt (rounded v)) else Empty.
+
+Lemma finite_val_f : forall prec emax (f : binary_float prec emax),
+  (match f_class f with CFinite => true | _ => false end) = is_finite f.
+Proof. intros prec emax [s | s | | s m e Hb]; reflexivity. Qed.
+
+Theorem cast_to_int_correct : forall cfg src tgt ks ts tb v,
+  cfg_ok cfg = true ->
+  num_of src = Some ks -> num_of tgt = Some (NInt ts tb) -> well_typed src v ->
+  cast cfg src tgt v = cast_int_spec ts tb tgt v.
+Proof.
+  intros cfg src tgt ks ts tb v Hok Hs Ht Hv.
+  pose proof (cfg_ok_params cfg Hok) as P.
+  pose proof (num_of_int_bits _ _ _ Ht) as Htb.
+  pose proof (num_of_prim _ _ Ht) as Hpt. cbv iota in Hpt.
+  pose proof (num_of_prim _ _ Hs) as Hps.
+  unfold cast_int_spec, rounded.
+  destruct (ty_eqb src tgt) eqn:Eq.
+  { (* same type: convert returns the value *)
+    apply ty_eqb_eq in Eq. subst tgt. unfold cast, convert. rewrite ty_eqb_refl.
+    rewrite Hs in Ht. injection Ht as ->. unfold well_typed in Hv. rewrite Hs in Hv.
+    destruct v as [n | f | f]; try contradiction.
+    cbn [valR finite_val val_class]. rewrite ZnearestA_IZR, Hv. reflexivity. }
+  assert (Hne : src <> tgt) by (intros ->; rewrite ty_eqb_refl in Eq; discriminate).
+  pose proof (cfg_ok_pair cfg src tgt _ _ Hok Hs Ht Hne) as Hp.
+  unfold pair_ok in Hp. rewrite Hs, Ht in Hp.
+  unfold well_typed in Hv. rewrite Hs in Hv.
+  unfold cast, convert, explicit. rewrite Eq, Hpt, Hps.
+  destruct ks as [ss sb | | ].
+  - (* integer source *)
+    destruct v as [n | f | f]; try contradiction.
+    pose proof (num_of_int_bits _ _ _ Hs) as Hsb.
+    cbn [valR finite_val val_class andb]. rewrite ZnearestA_IZR.
+    assert (Hmacro : int_macro cfg (VInt n) (PInt ss sb) (PInt ts tb) tgt =
+                     if in_range ts tb n then Res tgt (VInt n) else Empty)
+      by (apply int_macro_int; [apply P | apply P | apply P | assumption | assumption | assumption]).
+    pose proof (proj1 (in_range_iff _ _ _) Hv) as Hn.
+    destruct (lookup (c_convert cfg) src tgt) as [[ | | | ]|] eqn:Lc.
+    + (* RAs, widening *)
+      apply andb_true_iff in Hp as [Hp _]. apply andb_true_iff in Hp as [H1 H2].
+      apply Z.leb_le in H1. apply Z.leb_le in H2.
+      assert (Hr : in_range ts tb n = true) by (apply in_range_iff; lia).
+      cbn [as_cast]. rewrite wrap_id by (lia || assumption). rewrite Hr. reflexivity.
+    + (* RTry *)
+      destruct (in_range ts tb n) eqn:Hr; [reflexivity|].
+      destruct (lookup (c_cast cfg) src tgt) as [[[]| | | | | ]|]; try discriminate; try reflexivity.
+      cbn [eval_arg]. rewrite Hmacro. reflexivity.
+    + (* RNonNeg *)
+      apply andb_true_iff in Hp as [Hp Hx]. apply andb_true_iff in Hp as [H1 H2].
+      apply Z.eqb_eq in H1. apply Z.leb_le in H2.
+      destruct (n <? 0) eqn:Hneg.
+      * apply Z.ltb_lt in Hneg.
+        assert (Hr : in_range ts tb n = false).
+        { destruct (in_range ts tb n) eqn:Hr; [|reflexivity]. apply in_range_iff in Hr. lia. }
+        rewrite Hr.
+        destruct (lookup (c_cast cfg) src tgt) as [[[]| | | | | ]|]; try discriminate; try reflexivity.
+        cbn [eval_arg]. rewrite Hmacro, Hr. reflexivity.
+      * apply Z.ltb_ge in Hneg.
+        assert (Hr : in_range ts tb n = true) by (apply in_range_iff; lia).
+        cbn [as_cast]. rewrite wrap_id by (lia || assumption). rewrite Hr. reflexivity.
+    + discriminate.
+    + (* no implicit arm: cast_to_integer! *)
+      destruct (lookup (c_cast cfg) src tgt) as [[[]| | | | | ]|]; try discriminate.
+      cbn [eval_arg]. rewrite Hmacro. reflexivity.
+  - (* Float source *)
+    destruct v as [n | f | f]; try contradiction.
+    destruct (lookup (c_convert cfg) src tgt); [discriminate|].
+    destruct (lookup (c_cast cfg) src tgt) as [[| [] | | | | ]|]; try discriminate.
+    rewrite (p_plus _ P) in Hp. apply bounds_exact_spec in Hp as [B1 B2].
+    cbn [eval_arg float_macro]. rewrite (p_flo _ P), (p_fhi _ P), (p_plus _ P).
+    rewrite (f_macro_correct 24 128 _ _ f B1 B2).
+    unfold finite_val. cbn [valR val_class]. rewrite finite_val_f. unfold in_range.
+    rewrite andb_assoc. destruct (is_finite f && _ && _); reflexivity.
+  - (* Double source *)
+    destruct v as [n | f | f]; try contradiction.
+    destruct (lookup (c_convert cfg) src tgt); [discriminate|].
+    destruct (lookup (c_cast cfg) src tgt) as [[| [] | | | | ]|]; try discriminate.
+    rewrite (p_plus _ P) in Hp. apply bounds_exact_spec in Hp as [B1 B2].
+    cbn [eval_arg float_macro]. rewrite (p_flo _ P), (p_fhi _ P), (p_plus _ P).
+    rewrite (f_macro_correct 53 1024 _ _ f B1 B2).
+    unfold finite_val. cbn [valR val_class]. rewrite finite_val_f. unfold in_range.
+    rewrite andb_assoc. destruct (is_finite f && _ && _); reflexivity.
+Qed.
